@@ -15,7 +15,7 @@ from hv.worlds import World, profile, st_world, world_summary
 
 PROP = "C19"
 RULE = ("generated file-based scenarios run through the real handlers (EventfulHandler writing event.log, StatsHandler, VehicleChargeEventsHandler "
-        "with get_events()/clear() between groups of cranks) with built-in and deterministic scripted controllers; three independent views are "
+        "with get_events()/clear() between groups of cranks) with built-in and deterministic scripted controllers, request ids that come round again in a third of the worlds; three independent views are "
         "reconciled: the parsed log, per-step state snapshots with the step's reports captured by a handler of the harness, and the summary: every log "
         "line parses as JSON with the documented keys; per vehicle sum(move.distance_km) == odometer and sum(charge.energy) == energy gained; per "
         "station and flush block station_load.energy == sum of that block's charge energies there; stats.requests / cancelled_requests == #add / "
